@@ -10,7 +10,7 @@ CLAIMED = {
        'the quoted-key state and must give back exactly that byte; controls/quote/backslash always escaped; default number formats carry '
        '17/9 significant digits; reserve >= snprintf size >= widest text of every format used; non-finite guard; int path bounded to 9 digits; '
        'encoder type dispatch exhaustive; final flush, file sink, BOM probe outside the chunk loop. Bit-exact number recovery is not decided.',
-  technique='extraction of the encoder escape table + byte sets, run through the abstractly interpreted decoder transition function for all 255 bytes; constant/width table evaluation; CFG must-pass (final flush); tag exhaustiveness; per-byte emission table of the escaper by guard/argument evaluation (emit.py); a corpus of JSON/XDL documents driven through the interpreted decoder machine (accepting run); chunk rule of the parser (C06.chunks) and raw-key-append rule of the encoder; SIMPLE-flag evaluation over all mode values, room for the chunk terminator',
+  technique='extraction of the encoder escape table + byte sets, run through the abstractly interpreted decoder transition function for all 255 bytes; constant/width table evaluation; CFG must-pass (final flush); tag exhaustiveness; per-byte emission table of the escaper by guard/argument evaluation (emit.py); a corpus of JSON/XDL documents driven through the interpreted decoder machine (accepting run); chunk rule of the parser (C06.chunks) and raw-key-append rule of the encoder; SIMPLE-flag evaluation over all mode values, room for the chunk terminator; C05.exact who-may-call rule for number conversion, C05.realtext no-append-after-printf path rule',
   ref='DESIGN.md section 3 C05'),
  'C07': dict(
   text='Abstract interpretation of the Xml::decode loop over every reachable (state, last state, open-element stack) and byte class: no '
@@ -18,7 +18,7 @@ CLAIMED = {
        'input, e.g. "</>" on the original tree); state-dispatch exhaustiveness; children attached only through the parent-linking operator; '
        'the encoder escapes every byte the decoder treats specially in text and double-quoted attribute values and the decoder\'s entity table '
        'inverts the names written; scratch buffer of character references holds the longest sequence. Tree equality after a round trip is not decided.',
-  technique='abstract interpretation of the decoder transition function (worklist fixpoint), exhaustiveness and single-writer queries, escape/entity table agreement over the resolved AST; per-byte emission table of the escaper by guard/argument evaluation (emit.py); a corpus of XML documents through the interpreted decoder machine with an open/text/close event log; literal-read bound rule (R-LITREAD) with a self-test fixture; counting loops over followed texts executed concretely; longest output of the encoder from its interpreted body; no block read through the cursor',
+  technique='abstract interpretation of the decoder transition function (worklist fixpoint), exhaustiveness and single-writer queries, escape/entity table agreement over the resolved AST; per-byte emission table of the escaper by guard/argument evaluation (emit.py); a corpus of XML documents through the interpreted decoder machine with an open/text/close event log; literal-read bound rule (R-LITREAD) with a self-test fixture; counting loops over followed texts executed concretely; longest output of the encoder from its interpreted body; no block read through the cursor; C07.selfclose truth table of the self-closing guards',
   ref='DESIGN.md section 3 C07'),
  'C06': dict(
   text='Abstract interpretation of the JSON/XDL parser loop over every reachable abstract configuration (state, previous state, comment flag, '
@@ -35,7 +35,7 @@ CLAIMED = {
        'server uses only request.path(), every constant index into a split() result is dominated by a length test (evaluated for all shorter '
        'lengths), query cut only before the fragment, look-ahead guards of Url::decode/Url::Url, line cap and EOF exits of the readers, '
        'case-insensitive header keying and value extraction. Totality/promptness on all streams and body framing are not decided.',
-  technique='CFG typestate dataflow (decode-then-sanitise ordering), single-writer query, dominating-guard implication checks evaluated over the finite index range, structural loop-exit queries; bounded guard evaluation of the look-ahead indices over (index, length) grids; writes-of-the-search-position rule for replace; interpretation of the line reader against scripted peers; query-string split model by interpretation (scansim); R-LITREAD; partial-transfer scripts of the blocking read (C09.partial), no second decode of the sanitised path, C08.casebytes for header values',
+  technique='CFG typestate dataflow (decode-then-sanitise ordering), single-writer query, dominating-guard implication checks evaluated over the finite index range, structural loop-exit queries; bounded guard evaluation of the look-ahead indices over (index, length) grids; writes-of-the-search-position rule for replace; interpretation of the line reader against scripted peers; query-string split model by interpretation (scansim); R-LITREAD; partial-transfer scripts of the blocking read (C09.partial), no second decode of the sanitised path, C08.casebytes for header values; R-PROGRESS zero-read walks of the transfer loops (C09.progress), C09.lookup const-subscript rule, folded-header typestate',
   ref='DESIGN.md section 3 C09'),
  'C11': dict(
   text='Static decision of the structural clauses of WebSocket framing: the 64-bit wire length reaches int only through a dominating range '
@@ -51,7 +51,7 @@ CLAIMED = {
        'with the decrement as last access to the server, _running cleared only under the observed stop request while leaving the loop, stop(true) '
        'waits on loop and counter, Thread objects deleted only after join, no self-delete in run() (recorded known finding for the handler thread), '
        'Socket_::close invalidates the handle. OS scheduling behaviour is not decided.',
-  technique='CFG typestate dataflow (event-sequence per accepted socket, must-precede, join-before-delete), guard queries; positive-control fixture for the zero-expected rules; stop(): CFG typestate (no wait/accept after clearing the flag, every exit clears it) and branch evaluation of the wait loop for every (running, clients); accept receiver/guard must consult the list waitInput() filled; listener list rebuilt fresh per wait (C14.fresh); sibling-constructor initialisation agreement (R-CTORINIT), stop request not taken back, select() range evaluated for descriptor sequences (C14.nfds), receive loops stop at end of stream',
+  technique='CFG typestate dataflow (event-sequence per accepted socket, must-precede, join-before-delete), guard queries; positive-control fixture for the zero-expected rules; stop(): CFG typestate (no wait/accept after clearing the flag, every exit clears it) and branch evaluation of the wait loop for every (running, clients); accept receiver/guard must consult the list waitInput() filled; listener list rebuilt fresh per wait (C14.fresh); sibling-constructor initialisation agreement (R-CTORINIT), stop request not taken back, select() range evaluated for descriptor sequences (C14.nfds), receive loops stop at end of stream; stop request not cleared inside the threaded accept loop',
   ref='DESIGN.md section 3 C14'),
  'C13': dict(
   text='Static decision of the hand-over protocol shape behind run-exactly-once / join / finished(): trampolines order context copy, ready, '
@@ -59,7 +59,7 @@ CLAIMED = {
        'finished flag after the OS thread exists (call-graph closure over copy/assign); parallel_for/parallel_invoke join everything they start; '
        'the worker count is evaluated over a grid (1 <= n <= min(threads, length)) and the partition fields/loop have the strided form; '
        'Semaphore/Condition are exact thin wrappers. Visibility under all schedules is not decided.',
-  technique='CFG typestate dataflow for ordering/must-precede/join pairing with call-graph closure; expression evaluation of the worker-count formula over a finite grid; structural data-flow identities; counted-loop normal form + trip counts; 3-valued evaluation of wrapper return trees; early-return coverage over the (i0, length, threads) grid; ready-signal classification (plain store / atomic / unknown) with helper resolution (C13.handover), context owner rule, signal-must-wake rule, native-handle initialisation; every start() creates a thread (C13.start), timed-wait deadline interpreted on a (clock, timeout) grid (C13.deadline), hand-over record members by value, use() records the mutex on every path; timed waits report the native result',
+  technique='CFG typestate dataflow for ordering/must-precede/join pairing with call-graph closure; expression evaluation of the worker-count formula over a finite grid; structural data-flow identities; counted-loop normal form + trip counts; 3-valued evaluation of wrapper return trees; early-return coverage over the (i0, length, threads) grid; ready-signal classification (plain store / atomic / unknown) with helper resolution (C13.handover), context owner rule, signal-must-wake rule, native-handle initialisation; every start() creates a thread (C13.start), timed-wait deadline interpreted on a (clock, timeout) grid (C13.deadline), hand-over record members by value, use() records the mutex on every path; timed waits report the native result; R-RETSELF, C13.named (no temporary function threads)',
   ref='DESIGN.md section 3 C13'),
  'C15': dict(
   text='Static decision of the structural clauses of the codec property: Base64 alphabet/inverse-table agreement on all 64 symbols and 6-bit '
@@ -85,7 +85,7 @@ CLAIMED = {
        'the widest text of the values admitted on each branch (interval arithmetic over the threshold constants, printf width table), the '
        'integer-to-text helpers exclude the minimum value before negating, vsnprintf retry loops treat n == size as truncated. '
        'Agreement with a byte-string model for search/replace/split is not decided.',
-  technique='alias-after-invalidate typestate dataflow with call-graph summaries; constant/interval evaluation of capacity thresholds against a printf width table; dominating-guard checks; guard evaluation over the extreme values for signed negations; whole-body interpretation (scansim) of numeric constructors against a capacity table, number formatting/parse-back, split/split-to-Dic, trim over a small alphabet, va_list reuse rule, R-LITREAD; search members against find/rfind with stale bytes behind the terminator (C03.find)',
+  technique='alias-after-invalidate typestate dataflow with call-graph summaries; constant/interval evaluation of capacity thresholds against a printf width table; dominating-guard checks; guard evaluation over the extreme values for signed negations; whole-body interpretation (scansim) of numeric constructors against a capacity table, number formatting/parse-back, split/split-to-Dic, trim over a small alphabet, va_list reuse rule, R-LITREAD; search members against find/rfind with stale bytes behind the terminator (C03.find); C03.inplace interpretation of replaceme, C03.assignlen must-store-length path rule, R-RETSELF',
   ref='DESIGN.md section 3 C03'),
  'C04': dict(
   text='Static decision of the structural clauses behind Var copy/assign/clone safety: tag dispatch of copy/free/operator=/clone covers exactly the '
@@ -93,7 +93,7 @@ CLAIMED = {
        'argument (possibly an element/property of *this) is used after *this released or modified its containers (with summaries of the '
        'Array<Var>/Dic<Var> members it forwards to), clone() detaches before deep-cloning children, copies into the inline string buffer are '
        'length-guarded. Value fidelity of accessors and numeric equality are not decided.',
-  technique='exhaustive tag-dispatch agreement over the resolved AST, alias-after-invalidate typestate dataflow with interprocedural summaries, dominating-guard bound check; guard evaluation over small grids with path-sensitive CFG confirmation (inline buffer), conversion-chain range check over a grid of stored doubles, handle-copy query for the string buffer; string-representation writers by (partial) interpretation of every writer of the tag/inline buffer/heap pointer (C04.strrep), container-handle rule (C04.handles), numeric equality model; range guards of removeAt on a grid (C04.range), toString() interpreted for numeric extremes (C04.tostring); key-search rule of the sorted map (C02.map) on the Dic<Var> instantiation',
+  technique='exhaustive tag-dispatch agreement over the resolved AST, alias-after-invalidate typestate dataflow with interprocedural summaries, dominating-guard bound check; guard evaluation over small grids with path-sensitive CFG confirmation (inline buffer), conversion-chain range check over a grid of stored doubles, handle-copy query for the string buffer; string-representation writers by (partial) interpretation of every writer of the tag/inline buffer/heap pointer (C04.strrep), container-handle rule (C04.handles), numeric equality model; range guards of removeAt on a grid (C04.range), toString() interpreted for numeric extremes (C04.tostring); key-search rule of the sorted map (C02.map) on the Dic<Var> instantiation; C04.neq truth table of operator!= against operator==, object-literal parameters in R-ALIAS',
   ref='DESIGN.md section 3 C04'),
  'C02': dict(
   text='Static decision of the structural clauses of the finite-map property on every instantiated member of HashMap/HashDic/Set/Map: chain '
@@ -101,7 +101,7 @@ CLAIMED = {
        '2^k+SKIP with binOf/rehash mask agreement, rehash re-links every node and restores the count, no bucket index or chain pointer survives a '
        'table replacement, HashMap handle refcount protocol, Map inserts at the decoded indexOf position, comparators do not subtract integers, Set is thin. '
        'Correctness of the hand-written binary search is not decided.',
-  technique='CFG typestate dataflow (unlink/re-link, stale table-derived values), constant evaluation of table geometry, guard/dominance queries over instantiated templates; evaluation of the bucket-enumerator range against the array length; chain-removal and rehash models by interpretation of the instantiated members (int keys), R-ALIAS for Map; dup() as re-insertion or checked chain copy (C02.dup), size shortcuts of the set predicates on a size grid (C02.sizecut), copy-and-swap assignment modelled in R-RC; who may size the bucket array (C02.tablesize), String key order by interpretation (C02.order)',
+  technique='CFG typestate dataflow (unlink/re-link, stale table-derived values), constant evaluation of table geometry, guard/dominance queries over instantiated templates; evaluation of the bucket-enumerator range against the array length; chain-removal and rehash models by interpretation of the instantiated members (int keys), R-ALIAS for Map; dup() as re-insertion or checked chain copy (C02.dup), size shortcuts of the set predicates on a size grid (C02.sizecut), copy-and-swap assignment modelled in R-RC; who may size the bucket array (C02.tablesize), String key order by interpretation (C02.order); R-EQRANGE for Map::operator==, C02.setpair size-grid evaluation of operand selections, R-RETSELF',
   ref='DESIGN.md section 3 C02'),
  'C01': dict(
   text='Static decision, on every instantiated member of Array/Stack/Queue for int, String, Var and nested-array elements, of the structural '
@@ -109,14 +109,14 @@ CLAIMED = {
        'released or moved (R-ALIAS, with interprocedural summaries), no re-read of an argument array\'s live length after a self-resize (R-SELFARG), '
        'no element reference held across element writes (R-ELEMREF), the reference-count protocol of the handle (R-RC a-f), construct/destroy '
        'pairing with every count change on all CFG paths, Stack/Queue thinness. Sequence-model equality over histories is not decided.',
-  technique='typestate dataflow over CFGs of clang-instantiated template members (alias-after-invalidate, refcount protocol, element lifetime pairing) with call-graph fixpoint summaries; R-CAP allocation/capacity typestate with stable branch facts; linear forms with opaque atoms for tail moves; element-pointer arguments (append/copy of a pointer into the array itself), handle re-bind rule (C01.rebind); reallocation only when the element does not fit (C01.fits, guards on a grid)',
+  technique='typestate dataflow over CFGs of clang-instantiated template members (alias-after-invalidate, refcount protocol, element lifetime pairing) with call-graph fixpoint summaries; R-CAP allocation/capacity typestate with stable branch facts; linear forms with opaque atoms for tail moves; element-pointer arguments (append/copy of a pointer into the array itself), handle re-bind rule (C01.rebind); reallocation only when the element does not fit (C01.fits, guards on a grid); R-SELFARG through forwarded arguments, R-ALIAS on Stack/Queue, R-EQRANGE (equality executed for lengths 0..4), R-RETSELF',
   ref='DESIGN.md section 3 C01'),
  'C16': dict(
   text='Static decision of the structural clauses of the canonical-bytes property for every instantiated stream operator: '
        'byte counts of raw transfers carry the element size (R-UNITS), every scalar operator moves exactly sizeof(T) bytes and swaps '
        'iff the re-read byte-order member equals the non-native order, both branches of array writers emit length*sizeof(T), '
        'StreamBufferReader byte/shift tables, swapBytes reversal. Value identity per bit pattern is not decided.',
-  technique='custom AST checker over clang-resolved template instantiations (units rule, sibling agreement, constant byte/shift table evaluation); byte-provenance interpretation of the reader (byteprov), cell-level interpretation of swapBytes and swap-free writers (cellsim), bit provenance with a mixed-bit marker for arithmetic swaps, per-byte-order guard evaluation of swap/array paths, linear progress invariant of the partial-transfer loops; read-n / file-read / raw-scalar transfer rules, array writers interpreted with token elements; byte-order members initialised by every constructor and refreshed by setEndian() (C16.order), R-ALIAS for StreamBuffer, sending independent of a stale receive error; no widening conversion on the way into a scalar writer (C16.width)',
+  technique='custom AST checker over clang-resolved template instantiations (units rule, sibling agreement, constant byte/shift table evaluation); byte-provenance interpretation of the reader (byteprov), cell-level interpretation of swapBytes and swap-free writers (cellsim), bit provenance with a mixed-bit marker for arithmetic swaps, per-byte-order guard evaluation of swap/array paths, linear progress invariant of the partial-transfer loops; read-n / file-read / raw-scalar transfer rules, array writers interpreted with token elements; byte-order members initialised by every constructor and refreshed by setEndian() (C16.order), R-ALIAS for StreamBuffer, sending independent of a stale receive error; no widening conversion on the way into a scalar writer (C16.width); C16.layer stdio/descriptor layering typestate for File',
   ref='DESIGN.md section 3 C16'),
 
  'C12': dict(
